@@ -261,6 +261,23 @@ main(int argc, char *argv[])
 			/* metadata API: set an attribute (as), write the metadata out now (af) */
 			ovni_attr_set_double("verif.a", (double) seq);
 			fprintf(logf, "A %u\n", seq);
+		} else if (op[0] == 'a' && op[1] == 't') {
+			/* every kind of attribute; what is set can be read back at once (G lines, judged by the check) */
+			char v[64];
+			snprintf(v, sizeof(v), "text-%u", seq);
+			ovni_attr_set_str("verif.s", v);
+			ovni_attr_set_boolean("verif.b", (int) (seq & 1));
+			snprintf(v, sizeof(v), "{\"k\": [%u, 2, {\"z\": null}]}", seq);
+			ovni_attr_set_json("verif.j", v);
+			char *j = ovni_attr_get_json("verif.j");
+			fprintf(logf, "G %u has=%d%d s=%s b=%d d=%g j=", seq, ovni_attr_has("verif.s"), ovni_attr_has("verif.nothere"),
+					ovni_attr_get_str("verif.s"), ovni_attr_get_boolean("verif.b"),
+					ovni_attr_has("verif.a") ? ovni_attr_get_double("verif.a") : -1.0);
+			for (char *q = j; *q; q++)
+				if (*q != ' ' && *q != '\n')
+					fputc(*q, logf);
+			fputc('\n', logf);
+			free(j);
 		} else if (op[0] == 'a' && op[1] == 'f') {
 			ovni_attr_flush();
 		} else if (op[0] == 'a' && op[1] == 'b') {
